@@ -13,6 +13,7 @@ import (
 
 	"github.com/cuteLittleDevil/go-jt808/protocol/jt808"
 	"github.com/cuteLittleDevil/go-jt808/protocol/model"
+	"github.com/cuteLittleDevil/go-jt808/service"
 	"github.com/cuteLittleDevil/go-jt808/shared/consts"
 	"github.com/cuteLittleDevil/go-jt808/terminal"
 )
@@ -121,7 +122,15 @@ func init() {
 		sort.Slice(keys, func(i, j int) bool { return fmt.Sprint(keys[i]) < fmt.Sprint(keys[j]) })
 		out := newND(a[1])
 		defer out.close()
-		l := startLive(liveOpts{})
+		// the server runs with a custom key function: terminals whose phone ends in an even digit are registered by their
+		// authentication (0x0102) only - whatever they send before is answered all the same, as ExpectedReply predicts
+		l := startLive(liveOpts{keyFunc: func(m *service.Message) (string, bool) {
+			ph := m.JTMessage.Header.TerminalPhoneNo
+			if n := len(ph); n > 0 && (ph[n-1]-'0')%2 == 0 && m.JTMessage.Header.ID != 0x0102 {
+				return "", false
+			}
+			return ph, true
+		}})
 		r := newRand(2020)
 		wrap := len(a) > 2 && a[2] == "wrap"
 		missed := 0
